@@ -189,6 +189,8 @@ setclosing = """theorem L_setClosingWait (s s' : State) (t : Tid) (hint : Option
     rcases hpc with h | ⟨g, h⟩ <;> rw [h] <;> rfl
   have hhold : (s.thr t).pc.holds = none := by
     rcases hpc with h | ⟨g, h⟩ <;> rw [h] <;> rfl
+  have hrm : (s.thr t).pc.rmRef = some r := by
+    rcases hpc with h | ⟨g, h⟩ <;> rw [h] <;> rfl
   have hnd : ∀ res, (s.thr t).pc ≠ .done res := by
     intro res; rcases hpc with h | ⟨g, h⟩ <;> rw [h] <;> simp
   have hnc : ∀ r i ab, (s.thr t).pc ≠ .loadCommit r i ab := by
